@@ -21,6 +21,8 @@ inductive BeginStep where
 inductive CommitStep where
   | freeOldFreelist | allocFreelist | grow | writeData | strictCheck | writeMeta | flush | sync
   | publishFreelist
+  | beginHeaderAttempt   -- start of the region whose failure does not skip the publication decision
+  | publishIfVisible     -- publish the free list iff this transaction's header is the visible one
   deriving DecidableEq, Repr
 
 inductive CommitOuterStep where
